@@ -19,7 +19,8 @@ RULE = ('one case = one (TT input, rmax); the case runs the full eps decision wa
         '(input, rmax, rank-decision sequence); non-trivial = a decision sequence that truncated at least one bond')
 ASSUMPTIONS = ['exact unfolding ranks from the checker\'s own SVD, used only with a spectral gap >= 1e6',
                'inflated inputs are built with the library\'s own + and - (validated by C03)']
-KINDS = ['raw_gauss', 'raw_scaled', 'raw_tiny', 'raw_huge', 'raw_deficient', 'raw_zero', 'raw_over', 'raw_over_tall', 'inflated', 'svd_decay', 'svd_flat', 'svd_saturating', 'svd_gauss', 'tiny_decay', 'huge_decay']
+KINDS = ['raw_gauss', 'raw_scaled', 'raw_tiny', 'raw_huge', 'raw_deficient', 'raw_zero', 'raw_over', 'raw_over_tall', 'inflated', 'svd_decay', 'svd_flat', 'svd_saturating', 'svd_gauss', 'tiny_decay', 'huge_decay',
+         'raw_tiny30', 'raw_huge30', 'tiny_decay30', 'huge_decay30']
 CR = 1e3
 
 
@@ -41,7 +42,7 @@ def cases(tier, seed):
     for N in shapes:
         d = len(N)
         for kind in KINDS:
-            if (kind.startswith('svd') or kind.endswith('_decay')) and int(np.prod(N)) < 4:
+            if (kind.startswith('svd') or '_decay' in kind) and int(np.prod(N)) < 4:
                 continue
             for dt in ('f64', 'c128', 'c64'):
                 if dt == 'c64' and kind not in ('raw_gauss', 'svd_decay', 'inflated'):
@@ -82,10 +83,11 @@ def make_input(c):
         return build(st(q, 'gauss'), 'a', c['s'])[0]
     if kind == 'raw_scaled':
         return build(st(q, 'scaled'), 'a', c['s'])[0]
-    if kind in ('raw_tiny', 'raw_huge'):
+    if kind in ('raw_tiny', 'raw_huge', 'raw_tiny30', 'raw_huge30'):
         # overall norm far from 1 (1e-13 / 1e+13), the factor spread unevenly over the cores: every bound is relative
         x = build(st(q, 'gauss'), 'a', c['s'])[0]
-        f = 1e-13 if kind == 'raw_tiny' else 1e13
+        # (second scale 1e-30 / 1e+30: an absolute cut-off placed below the first scale still shows)
+        f = {'raw_tiny': 1e-13, 'raw_huge': 1e13, 'raw_tiny30': 1e-30, 'raw_huge30': 1e30}[kind]
         cores = [cc.clone() for cc in x.cores]
         cores[0] = cores[0] * (f ** 0.75)
         cores[-1] = cores[-1] * (f ** 0.25) if d > 1 else cores[-1] * (f ** 0.25)
@@ -102,10 +104,10 @@ def make_input(c):
     if kind == 'inflated':
         x = build(st(q, 'gauss'), 'a', c['s'])[0]
         return (x + x) - x
-    if kind in ('tiny_decay', 'huge_decay'):
+    if kind in ('tiny_decay', 'huge_decay', 'tiny_decay30', 'huge_decay30'):
         # decaying spectra at an overall norm of 1e-13 / 1e+13 (an absolute floor or ceiling in the threshold shows)
         x = make_input(dict(c, kind='svd_decay'))
-        f = 1e-13 if kind == 'tiny_decay' else 1e13
+        f = {'tiny_decay': 1e-13, 'huge_decay': 1e13, 'tiny_decay30': 1e-30, 'huge_decay30': 1e30}[kind]
         cores = [cc.clone() for cc in x.cores]
         cores[0] = cores[0] * (f ** 0.5)
         cores[-1] = cores[-1] * (f ** 0.5)
